@@ -9,10 +9,22 @@ FLAGS = ['--test-skip-device', '--test-skip-self', '--no-warnings', '--test-forc
 KEY_ZEROSUB = 'F-C20-status-zerosubsecond-raw'
 KEY_STDOUT = 'F-C20-stdout-newline'
 KEY_DIRFILE = 'F-C20-pool-dir-replaced-by-file'
+KEY_CLOCK = 'F-C20-status-new-mark-counted-as-second'
 
 
-def tool(exe, tree, args, log=None):
-    """run the real binary; returns (rc, stdout bytes, log bytes)"""
+SHIM = [None]
+
+
+def steer(now):
+    """a clock value for a status run: not earlier than `now`, and = 3 mod 8, so that no recorded time (a multiple of 8) is
+    a whole number of days away from it: ages and the future-date warning do not depend on sub-second races"""
+    while now % 8 != 3:
+        now += 1
+    return now
+
+
+def tool(exe, tree, args, log=None, now=None):
+    """run the real binary (with the clock set to `now` through the time shim when given); returns (rc, stdout, log, stderr)"""
     cmd = [exe] + FLAGS + ['-c', tree.conf]
     lp = None
     if log:
@@ -21,6 +33,8 @@ def tool(exe, tree, args, log=None):
             os.remove(lp)
         cmd += ['-l', lp]
     env = dict(os.environ, TZ='UTC', LC_ALL='C')
+    if now is not None:
+        env.update(LD_PRELOAD=SHIM[0], VSHIM_TIME=str(now))
     r = subprocess.run(cmd + args, stdout=subprocess.PIPE, stderr=subprocess.PIPE, env=env, cwd=tree.root)
     lb = open(lp, 'rb').read() if lp and os.path.exists(lp) else b''
     return r.returncode, r.stdout, lb, r.stderr
@@ -350,8 +364,10 @@ def status_vs_content(cx, tree, step, out, logb, now0, now1):
                 probs.append('graph row %r, the recorded times give %r' % d)
         except StopIteration:
             probs.append('no graph printed')
-        if (e['timemap'][-1] > now1) != ('You have scrub dates in the future' in txt) and (e['timemap'][-1] > now0) != ('You have scrub dates in the future' in txt):
-            probs.append('scrub-dates-in-the-future warning does not match the recorded newest time')
+        newest = e['timemap'][-1] & ~1                    # the recorded time, without the not-yet-scrubbed mark
+        if (newest > now0) != ('You have scrub dates in the future' in txt):
+            probs.append('scrub-dates-in-the-future warning %s although the newest recorded time is %d and the clock of the run %d'
+                         % ('printed' if 'You have scrub dates in the future' in txt else 'missing', newest, now0))
         if e['bad']:
             bl = c20c.bad_line_expected(e['bad'], len(e['bad']), e['has_bad'][1], e['has_bad'][2])
             if bl not in tl:
@@ -374,9 +390,8 @@ def status_vs_content(cx, tree, step, out, logb, now0, now1):
 
 def verify_status(cx, tree, step, exp):
     """exp: dict(unsynced=set of positions, unscrubbed=set, bad=set, blockmax=int) implied by the history, or None"""
-    now0 = int(time.time())
-    rc, out, logb, err = tool(cx.exe, tree, ['-G', 'status'], 'status.log')
-    now1 = int(time.time())
+    now0 = now1 = steer(int(time.time()) + 2)            # the clock of this status run, set through the time shim
+    rc, out, logb, err = tool(cx.exe, tree, ['-G', 'status'], 'status.log', now=now0)
     e = status_vs_content(cx, tree, step, out, logb, now0, now1)
     if exp is None:
         if e is not None and len(cx.samples) < 12:
@@ -998,6 +1013,41 @@ def scenario_dup_hashsize(cx, rng, hasher):
         cx.samples.append({'cmd': 'dup', 'hashsize': hs, 'pairs_with_equal_digest_prefix': [[digs[a].hex(), digs[b].hex()] for a, b in pairs]})
 
 
+def scenario_status_clock(cx):
+    """status at chosen clock values around the recorded time X of a just synced array (X a multiple of 8, clock set through
+    the time shim): at X+1 and X+86401 the text must be right; at X itself and at X+86400 the not-yet-scrubbed mark that
+    status keeps in the lowest bit of the time (scrub_time |= TIME_NEW) is taken for a second"""
+    root = mkscratch('c20k.')
+    tree = Tree(root, 1)
+    tree.write(0, b'f', b'x' * 3000, 1500000000 * 10 ** 9 + 5)
+    X = 1700000000
+    rc, out, logb, err = tool(cx.exe, tree, ['sync'], now=X)
+    st = c20c.load(os.path.join(tree.root, 'content'))
+    if rc != 0 or [i['time'] for i in st['info']] != [X] * 3:
+        cx.chk.notes.append('clock scenario: sync under the time shim did not record the time %d (%r): skipped' % (X, [i and i['time'] for i in st['info']]))
+        return
+    quirks = []
+    for d, want_days in ((1, 0), (86401, 1), (0, 0), (86400, 1)):
+        rc, out, logb, err = tool(cx.exe, tree, ['status'], now=X + d)
+        txt = out.decode('latin1')
+        mt = re.search(r'the newest (\d+)\.', txt)
+        warn = 'You have scrub dates in the future' in txt
+        cx.evals += 1
+        cx.kinds.add('status_clock')
+        if warn or not mt or int(mt.group(1)) != want_days:
+            msg = 'status run %d s after the recorded time: %s, newest "%s days ago" (expected no warning, %d)' % (d, 'future-date warning' if warn else 'no warning', mt.group(1) if mt else None, want_days)
+            if d in (0, 86400):
+                quirks.append(msg)
+            else:
+                cx.bad('clock_%d' % d, msg, {'recorded_time': X, 'clock': X + d, 'commands': ['sync (clock X)', 'status (clock X+%d)' % d]})
+    if quirks:
+        cx.chk.violation('status_clock_mark', 'status adds the not-yet-scrubbed mark (TIME_NEW, bit 0) to the recorded time before comparing it with the clock: ' + '; '.join(quirks),
+                         {'scenario': 'clock', 'recorded_time': X, 'recipe': ['one file, sync with time() = X = 1700000000 (a multiple of 8; LD_PRELOAD harness/c/shim.c VSHIM_TIME)',
+                                                                               'status with time() = X  -> "WARNING! You have scrub dates in the future!"',
+                                                                               'status with time() = X+86400 -> "the newest 0" days ago instead of 1'], 'observed': quirks},
+                         finding_key=KEY_CLOCK)
+
+
 def scenario_zerosub_many(cx):
     """more than 50 files with a zero sub-second stamp on one disk: the 50th line says (more follow), later ones are not logged"""
     root = mkscratch('c20m.')
@@ -1135,6 +1185,8 @@ def main(tier, replay=None):
     try:
         drv = build_driver(snap, 'c20_drv.c', ['cmdline/support.c'], 'c20_drv')
         exe = build_tool(snap)
+        import arraylib
+        SHIM[0] = arraylib.build_shim(snap)
         hasher = build_driver(snap, 'hash_drv.c', ['cmdline/util.c', 'cmdline/stream.c', 'cmdline/support.c', 'cmdline/elem.c', 'cmdline/unix.c', 'raid/memory.c', 'tommyds/tommy.c'],
                               'hash_drv', libs=['-lblkid'])
     except BuildError as e:
@@ -1166,7 +1218,7 @@ def main(tier, replay=None):
     cxs = []
     plans = [('main', lambda cx: scenario_main(cx, rng, 3, True, 25)), ('pool', lambda cx: scenario_pool_rerun(cx, rng)), ('zerosub', scenario_zerosub), ('stale', scenario_pool_stale_dir), ('flags', lambda cx: scenario_status_flags(cx, rng)),
              ('zmany', scenario_zerosub_many), ('empty', scenario_empty), ('space', lambda cx: scenario_status_space(cx, rng)),
-             ('hashsize', lambda cx: scenario_dup_hashsize(cx, rng, hasher))]
+             ('hashsize', lambda cx: scenario_dup_hashsize(cx, rng, hasher)), ('clock', scenario_status_clock)]
     if tier == 'thorough':
         plans += [('main%d' % i, (lambda cx, i=i: scenario_main(cx, rng, 2 + i % 4, i % 2 == 0, 60))) for i in range(1, 7)]
         plans += [('poolshare', lambda cx: scenario_pool_rerun(cx, rng, 3, share='/share/root'))]
